@@ -211,7 +211,8 @@ def corr_randmeth(ctx, drv, rng, n_cases, broken):
         a_mod = drv.call("randmeth_amp", float(m.var), ("z", n_modes))
         if not C.close(a_mod, amp, rtol=1e-15):
             broken.append(("amplitude sqrt(var/mode_no)", dict(case, model=a_mod, impl=amp)))
-        ctx.sample(dict(generator="RandMeth", meta=meta, mode_no=n_modes, mesh=mt, n_points=int(pos.shape[1])))
+        if it < 2:
+            ctx.sample(dict(generator="RandMeth", meta=meta, mode_no=n_modes, mesh=mt, n_points=int(pos.shape[1])))
 
 
 def corr_fourier(ctx, drv, rng, n_cases, broken):
@@ -255,7 +256,8 @@ def corr_fourier(ctx, drv, rng, n_cases, broken):
         if out.shape != field.shape or not np.all(np.abs(out - field) <= tol):
             broken.append(("SRF.__call__ (Fourier) vs model srf_fourier", dict(case, impl=[C.fhex(v) for v in field],
                                                                              model=[C.fhex(v) for v in out])))
-        ctx.sample(dict(generator="Fourier", meta=meta, mode_no=mode_no, period=period, n_points=npt))
+        if it < 1:
+            ctx.sample(dict(generator="Fourier", meta=meta, mode_no=mode_no, period=period, n_points=npt))
 
 
 def corr_incompr(ctx, drv, rng, n_cases, broken):
@@ -363,9 +365,11 @@ def ensemble_probe(ctx, rng, n_cfg, n_seeds):
         kind, dims = kinds[it % len(kinds)]
         dim = int(rng.choice(dims))
         m, meta = _model_for(rng, dim, kind)
-        if it % 2 == 0 and m.nugget == 0:
-            m.nugget = float(rng.uniform(0.1, 0.6))
-            meta["nugget"] = m.nugget
+        if it % 2 == 0:
+            # nugget comparable to the variance, so that a wrong nugget scaling moves the sill by > 15 %
+            m.nugget = float(rng.uniform(0.3, 0.6))
+            m.var = float(rng.uniform(0.3, 0.8))
+            meta.update(nugget=m.nugget, var=m.var)
         slow = not m.has_ppf
         n_modes = 40 if slow else 64
         S = max(80, n_seeds // 3) if slow else n_seeds
@@ -378,10 +382,15 @@ def ensemble_probe(ctx, rng, n_cfg, n_seeds):
             v /= np.linalg.norm(v)
             pts.append(v * r * m.len_scale)
         pos = np.array(pts).T + rng.uniform(-50, 50, size=(dim, 1))
+        n_near = pos.shape[1]
+        # + 40 far-apart points: the per-seed average of (u - mean)^2 over them is a low-variance estimate of the sill
+        far = rng.uniform(-100, 100, size=(dim, 40)) * m.len_scale
+        allpos = np.hstack([pos, far])
         base = int(rng.integers(0, 2 ** 30))
-        F = np.empty((S, pos.shape[1]))
+        FA = np.empty((S, allpos.shape[1]))
         for s in range(S):
-            F[s] = srf([pos[d] for d in range(dim)], seed=base + s)
+            FA[s] = srf([allpos[d] for d in range(dim)], seed=base + s)
+        F = FA[:, :n_near]
         case = dict(meta, mode_no=n_modes, seeds=[base, base + S], mean=mean, pos=pos.tolist())
         ctx.count(("ensemble", kind, dim, n_modes, m.nugget > 0), n=S, hist=dict(ensemble_class=kind, ensemble_dim=dim))
         sill = m.var + m.nugget
@@ -391,6 +400,11 @@ def ensemble_probe(ctx, rng, n_cfg, n_seeds):
         if np.any(np.abs(mu - mean) > 8 * se + 0.02 * math.sqrt(sill)):
             ctx.violation("probe: ensemble mean", "mean over %d seeds is %s, expected %g" % (S, mu.tolist(), mean),
                           dict(case, mean_est=mu.tolist(), se=se.tolist()), key="ensemble-mean:%s:dim=%d" % (kind, dim))
+        vs = ((FA[:, n_near:] - mean) ** 2).mean(axis=1)
+        v_est, v_se = float(vs.mean()), float(vs.std(ddof=1) / math.sqrt(S))
+        if abs(v_est - sill) > 8 * v_se + 0.02 * sill:
+            ctx.violation("probe: ensemble sill", "variance averaged over 40 locations and %d seeds is %.4f, var + nugget = %.4f (se %.4f)" % (
+                S, v_est, sill, v_se), dict(case, est=v_est, expect=sill, se=v_se), key="ensemble-sill:%s:dim=%d" % (kind, dim))
         G = F - mean
         for a in range(pos.shape[1]):
             for b in range(a, pos.shape[1]):
@@ -525,7 +539,8 @@ def run(ctx):
         "H1-H4 themselves: RNG quality, MCMC convergence, accuracy of the numerical (Hankel) spectrum — PARTIAL by design",
         "the rate at which the Monte-Carlo / discretisation error shrinks with the number of modes (probed only)",
         "convergence of the Fourier Riemann sum to the Bochner integral (stated as the sum; probed numerically)",
-        "IncomprRandMeth covariance (model + correspondence only); uniform-sphere second moments (unit norm proved only)",
+        "IncomprRandMeth covariance (model + correspondence only)",
+        "that numpy's uniform / normal / choice streams are uniform, normal and independent (sphere and inversion theorems take the draws as uniform)",
         "IEEE rounding (theorems are over exact reals)",
     ]
     # ---- 0. corpus: confirming cases of the known findings, in worker processes while the proofs build
@@ -607,6 +622,8 @@ def run(ctx):
             med = dict(med, replicate_ratios=[round(r["ratio"], 3) for r in rs], replicate_seeds=[r["seed"] for r in rs])
             judge_cell(ctx, med, "probe: spectral sampling")
             worst = max(worst, med["ratio"])
+            if len(ctx.samples) < 5:
+                ctx.sample(dict(spectral_cell=med))
             if rs[-1]["ratio"] > 1.0 >= med["ratio"]:
                 ctx.notes.append("sporadic deviation in one replicate of %s (ratios %s, seeds %s)" % (
                     kf_key(*cell), med["replicate_ratios"], med["replicate_seeds"]))
